@@ -21,6 +21,8 @@ I, R = z3.IntSort(), z3.RealSort()
 A = z3.ArraySort(I, R)
 F_sum = z3.Function("F_sum", A, I, I, I, R)
 F_min = z3.Function("F_min", A, I, I, I, R)
+LEAF = z3.Function("leaf", A, I, I, R)      # leaf(arr, c, j) := arr[c + j]  (definitional axiom below; gives quantifiers
+                                            # over leaves an uninterpreted trigger instead of an arithmetic index)
 is_pow2 = z3.Function("is_pow2", I, z3.BoolSort())
 band = z3.Function("band", I, I, I)
 INF = z3.Real("INF")
@@ -31,9 +33,15 @@ def zmin(a, b):
     return z3.If(b < a, b, a)
 
 
+def leaf_axiom():
+    arr = z3.Const("arr!lf", A)
+    c, j = z3.Ints("c!lf j!lf")
+    return z3.ForAll([arr, c, j], LEAF(arr, c, j) == arr[c + j], patterns=[LEAF(arr, c, j)])
+
+
 def pow2_axioms():
     x = z3.Int("x!p2")
-    return [
+    return [leaf_axiom(),
         # mathematical facts about powers of two (trusted arithmetic lemma, listed in evidence)
         z3.ForAll([x], z3.Implies(z3.And(is_pow2(x), x > 1), z3.And(x % 2 == 0, is_pow2(x / 2))), patterns=[is_pow2(x)]),
         z3.ForAll([x], z3.Implies(is_pow2(x), x >= 1), patterns=[is_pow2(x)]),
@@ -46,12 +54,12 @@ def pow2_axioms():
 
 
 def unfold_sum(arr, c, a, b):
-    return F_sum(arr, c, a, b) == z3.If(b <= a, z3.RealVal(0), F_sum(arr, c, a, b - 1) + arr[c + b - 1])
+    return F_sum(arr, c, a, b) == z3.If(b <= a, z3.RealVal(0), F_sum(arr, c, a, b - 1) + LEAF(arr, c, b - 1))
 
 
 def unfold_min(arr, c, a, b):
-    return z3.Implies(b > a, F_min(arr, c, a, b) == z3.If(b == a + 1, arr[c + a],
-                                                            zmin(F_min(arr, c, a, b - 1), arr[c + b - 1])))
+    return z3.Implies(b > a, F_min(arr, c, a, b) == z3.If(b == a + 1, LEAF(arr, c, a),
+                                                            zmin(F_min(arr, c, a, b - 1), LEAF(arr, c, b - 1))))
 
 
 def add_sum(arr, c, a, m, b):
@@ -86,7 +94,8 @@ def node_min(arr, cap, node, lo, span):
 
 def nonneg_sum(arr, c, a, b):
     j = z3.Int("j!nn")
-    return z3.Implies(z3.ForAll([j], z3.Implies(z3.And(a <= j, j < b), arr[c + j] >= 0)), F_sum(arr, c, a, b) >= 0)
+    return z3.Implies(z3.ForAll([j], z3.Implies(z3.And(a <= j, j < b), LEAF(arr, c, j) >= 0), patterns=[LEAF(arr, c, j)]),
+                      F_sum(arr, c, a, b) >= 0)
 
 
 def lemmas():
@@ -110,7 +119,7 @@ def lemmas():
                                          add_min(arr, c, a, m, b + 1))))
     # --- non-negativity of F_sum: induction on b
     j = z3.Int("j!L")
-    hyp = lambda hi: z3.ForAll([j], z3.Implies(z3.And(a <= j, j < hi), arr[c + j] >= 0))
+    hyp = lambda hi: z3.ForAll([j], z3.Implies(z3.And(a <= j, j < hi), LEAF(arr, c, j) >= 0), patterns=[LEAF(arr, c, j)])
     out.append(("sum_nonneg.base", lambda: ([unfold_sum(arr, c, a, a)], F_sum(arr, c, a, a) >= 0)))
     out.append(("sum_nonneg.step", lambda: ([b >= a, z3.Implies(hyp(b), F_sum(arr, c, a, b) >= 0), hyp(b + 1),
                                              unfold_sum(arr, c, a, b + 1)], F_sum(arr, c, a, b + 1) >= 0)))
